@@ -941,6 +941,37 @@ func famOwnFull(c *hx.Ctx) {
 	}
 }
 
+// F1d: failed Setups (kill timeout; refused while the backend closes), then the failed newcomer's Terminate, the
+// displaced connection's Terminate and a further Setup with the same id, in every order
+func famFailedSetup(c *hx.Ctx) {
+	x := hxs("x")
+	perms := [][3]int{{0, 1, 2}, {0, 2, 1}, {1, 0, 2}, {1, 2, 0}, {2, 0, 1}, {2, 1, 0}}
+	for _, closing := range []bool{false, true} {
+		for _, c1 := range []string{"0", "1"} {
+			for _, c2 := range []string{"0", "1"} {
+				for pi, pm := range perms {
+					ops := []string{"setup 1 " + x + " " + c1 + " 0", "sub 1 " + hxs("a") + ",1", "setup 5 - 1 0", "sub 5 " + hxs("#") + ",0"}
+					if closing {
+						ops = append(ops, "close", "setup 2 "+x+" "+c2+" 0") // refused: ErrClosing
+					} else {
+						ops = append(ops, "setup 2 "+x+" "+c2+" 1", "setupend 1") // waits for 1, gives up: ErrKillTimeout
+					}
+					three := []string{"term 2", "term 1", "setup 3 " + x + " " + []string{"0", "1"}[pi%2] + " 0"}
+					for _, i := range pm {
+						ops = append(ops, three[i])
+						if three[i] == "term 1" {
+							ops = append(ops, "closed 1")
+						}
+					}
+					ops = append(ops, "finish", fmt.Sprintf("pub 9 %s,%s,1,0", hxs("a"), payload()),
+						"setup 4 "+x+" 0 0", "finish", "deq 1", "deq 3", "deq 4", "deq 5", "term 3", "term 4")
+					runHist(c, hist{cap: 2, ops: ops}, "failedsetup")
+				}
+			}
+		}
+	}
+}
+
 // F2: retained publishes, then a fresh subscriber with every filter
 func famRetained(c *hx.Ctx) {
 	k := 0
@@ -1241,6 +1272,7 @@ func runMB(c *hx.Ctx) {
 	}
 	famTargets(c)
 	famOwnFull(c)
+	famFailedSetup(c)
 	famSizes(c)
 	famRetained(c)
 	famManyRetained(c)
